@@ -277,7 +277,9 @@ impl Evaluator {
 
         // If the king can move, we're definitely not in checkmate or stalemate, so we can
         // skip the expensive check for checkmate or stalemate through move generation
-        if !king_has_move {
+        // (only when not in check: a king in check may see a free square that is still
+        // on the checking ray behind it)
+        if !king_has_move || state.is_check() {
             let legal_moves = MoveGenerator::compute_legal_moves(state);
             if legal_moves.is_empty() && state.is_check() {
                 return if state.turn_to_move() == perspective {
